@@ -25,11 +25,11 @@ ASSUMPTIONS = [
 
 
 def _blocks_and_strips(sig, arr, g, ul, values):
-    n = g["r"]
+    nr, nc = g["r"], g["c"]
     a = M.adj(g)
     data = np.ma.getdata(arr).astype(float)
     mask = np.ma.getmaskarray(arr) | np.isnan(data)
-    require(data.shape == (n * ul + 1, n * ul + 1), f"{sig}:image-size", f"{data.shape} for grid {n}, unit {ul}")
+    require(data.shape == (nr * ul + 1, nc * ul + 1), f"{sig}:image-size", f"{data.shape} for grid {nr}x{nc}, unit {ul}")
 
     def is_wall(sl):
         if values is None:
@@ -41,13 +41,13 @@ def _blocks_and_strips(sig, arr, g, ul, values):
             return bool(np.all(~mask[sl]) and np.all(data[sl] != -1))
         return bool(np.all(~mask[sl]))
 
-    for i in range(n):
-        for j in range(n):
+    for i in range(nr):
+        for j in range(nc):
             blk = (slice(i * ul + 1, (i + 1) * ul), slice(j * ul + 1, (j + 1) * ul))
             want = 1.0 if values is None else float(values[i][j])
             require(bool(np.all(~mask[blk]) and np.allclose(data[blk], want, rtol=0, atol=1e-12)), f"{sig}:cell-block",
                     f"cell ({i},{j}): block is not uniformly {want}: {np.unique(data[blk])[:4]}")
-    for (i, j), (k, l) in M.lattice_edges(n, n):
+    for (i, j), (k, l) in M.lattice_edges(nr, nc):
         if k == i + 1:
             sl = (slice((i + 1) * ul, (i + 1) * ul + 1), slice(j * ul + 1, (j + 1) * ul))
         else:
@@ -72,7 +72,8 @@ def check(case: dict):
 
     g, sol, kind, ul = case["g"], case["sol"], case["kind"], case["ul"]
     values = case.get("values")
-    m = L.make_kind(kind, g, sol, dtype=L.provenance(case, g))
+    pdt = L.provenance(case, g)
+    m = L.make_kind(kind, g, sol, dtype=pdt)
     sig = "C20"
     try:
         mp = call("C20:construct", MazePlot, m, unit_length=ul)
@@ -81,11 +82,11 @@ def check(case: dict):
         true_path = [tuple(q) for q in sol] if kind != "lattice" else None
         if case.get("true_path") is not None:
             tp = case["true_path"]
-            call("C20:add_true_path", mp.add_true_path, np.array(tp) if case.get("as_array") else [tuple(q) for q in tp])
+            call("C20:add_true_path", mp.add_true_path, np.array(tp, dtype=pdt) if case.get("as_array") else [tuple(q) for q in tp])
             true_path = [tuple(q) for q in tp]
         preds = []
         for k, pp in enumerate(case.get("pred_paths", [])):
-            arg = np.array(pp) if (case.get("as_array") and k % 2 == 0) else [tuple(q) for q in pp]
+            arg = np.array(pp, dtype=pdt) if (case.get("as_array") and k % 2 == 0) else [tuple(q) for q in pp]
             call("C20:add_predicted_path", mp.add_predicted_path, arg)
             preds.append([tuple(q) for q in pp])
         call("C20:plot", mp.plot)
@@ -131,24 +132,34 @@ def check(case: dict):
     E = M.n_edges(g)
     allp = ([true_path] if true_path else []) + preds
     turn = any((a[0] - b[0], a[1] - b[1]) != (b[0] - c[0], b[1] - c[1]) for p in allp for a, b, c in zip(p, p[1:], p[2:]))
-    labels = [kind, "values" if values is not None else "plain", f"preds:{len(preds)}"]
+    labels = [kind, "values" if values is not None else "plain", f"preds:{len(preds)}", "square" if g["r"] == g["c"] else ("wide" if g["c"] > g["r"] else "tall")] + (["coordinate>=10"] if max(g["r"], g["c"]) >= 11 else [])
     return {"nt": 0 < E < len(M.lattice_edges(g["r"], g["c"])) and turn, "labels": labels}
 
 
 @st.composite
 def _case(draw, hi):
-    n = draw(st.sampled_from(list(range(2, hi + 1))))
-    base = draw(G.solved_case(lo=n, hi=n, square=True))
+    n = draw(st.sampled_from(list(range(2, hi + 1)) + [10, 11, 12, 13]))
+    if draw(st.integers(0, 2)) == 0:
+        # wide and tall mazes
+        nr, nc = draw(st.sampled_from([(2, 5), (5, 2), (3, 6), (6, 3), (2, 7), (4, 9), (9, 4), (3, 12), (12, 3), (1, 4), (4, 1)]))
+        gg = draw(G.graphs(nr, nc) if draw(st.booleans()) else G.connected_graphs(nr, nc))
+        aa = M.adj(gg)
+        s0 = tuple(draw(G.cell_in(nr, nc)))
+        far = sorted(M.bfs(aa, s0).items(), key=lambda kv: (-kv[1], kv[0]))[0][0]
+        base = {"g": gg, "sol": [list(q) for q in M.shortest_path(aa, s0, far)]}
+    else:
+        base = draw(G.solved_case(lo=n, hi=n, square=True))
     g, sol = base["g"], base["sol"]
+    n, ncols = g["r"], g["c"]
     case = {"g": g, "sol": sol, "kind": draw(st.sampled_from(["lattice", "targeted", "solved", "solved"])), "ul": draw(st.sampled_from([3, 4, 5, 7, 14, 16]) | st.integers(3, 16))}
     if draw(st.booleans()):
         vals = st.floats(-5, 5, allow_nan=False, allow_infinity=False).map(lambda x: round(x, 3)) | st.sampled_from([0.0, 1.0, -1.0, 0.93])
-        case["values"] = [[draw(vals) for _ in range(n)] for _ in range(n)]
+        case["values"] = [[draw(vals) for _ in range(ncols)] for _ in range(n)]
         case["hide_colorbar"] = draw(st.booleans())
     a = M.adj(g)
 
     def walk():
-        u = (draw(st.integers(0, n - 1)), draw(st.integers(0, n - 1)))
+        u = (draw(st.integers(0, n - 1)), draw(st.integers(0, ncols - 1)))
         p = [u]
         for _ in range(draw(st.integers(1, 8))):
             nb = sorted(a[p[-1]])
@@ -158,7 +169,10 @@ def _case(draw, hi):
         if len(p) < 2:
             # an isolated cell: use any lattice neighbour so that the path has two points (paths need not follow connections)
             r0, c0 = p[0]
-            p.append((r0 + 1, c0) if r0 + 1 < n else (r0 - 1, c0))
+            if n >= 2:
+                p.append((r0 + 1, c0) if r0 + 1 < n else (r0 - 1, c0))
+            else:
+                p.append((r0, c0 + 1) if c0 + 1 < ncols else (r0, c0 - 1))
         if draw(st.booleans()):
             p = p[::-1]
         return [list(q) for q in p]
